@@ -105,7 +105,8 @@ func leavesForHash(blobs storage.Store, hash Key, leafSize uint32, prefix string
 	if err != nil {
 		return nil, err
 	}
-	return verifiedKeys(b, leafSize)
+	// the blob must end with the requested root key, and that key must be the checksum of the leaf keys
+	return LeafKeys(hash, b, leafSize)
 }
 
 // bytesFromRoot reads the blob referred to by a root hash key
